@@ -6,7 +6,15 @@ from concurrent.futures import ThreadPoolExecutor
 
 ROOT = "/verif"
 SPEC = ROOT + "/spec"
-OUT = ROOT + "/out"            # scratch (git-ignored); nothing registered depends on /tmp
+# Scratch mode (development only: mutation / seeded-change runs that must not touch /repo or the
+# registered evidence): VERIF_REPO names another checkout, VERIF_SCRATCH a directory that receives the
+# build tree, the scratch output, the evidence and the replay files of that run.
+REPO = os.environ.get("VERIF_REPO", "/repo")
+SCRATCH = os.environ.get("VERIF_SCRATCH")
+OUT = (SCRATCH + "/out") if SCRATCH else ROOT + "/out"   # scratch (git-ignored); nothing registered depends on /tmp
+BUILDROOT = (SCRATCH + "/build") if SCRATCH else ROOT + "/.build"
+EVIDENCE = (SCRATCH + "/evidence") if SCRATCH else ROOT + "/evidence"
+REPLAY = (SCRATCH + "/replay") if SCRATCH else ROOT + "/replay"
 NCPU = os.cpu_count() or 8
 JAVA_HEAP_TRACE = "-Xmx2g"
 
@@ -20,7 +28,7 @@ def build(variant="hooks"):
     r = subprocess.run([ROOT + "/tools/build.sh", variant], capture_output=True, text=True)
     if r.returncode != 0:
         raise Infra("build of variant %s failed:\n%s\n%s" % (variant, r.stdout[-3000:], r.stderr[-3000:]))
-    return ROOT + "/.build/" + variant
+    return BUILDROOT + "/" + variant
 
 def scratch(name):
     d = os.path.join(OUT, name)
@@ -166,15 +174,15 @@ def load_known():
     return res
 
 def write_evidence(pid, tier, seed, level, coverage, wall, violations, assumptions=()):
-    os.makedirs(ROOT + "/evidence", exist_ok=True)
+    os.makedirs(EVIDENCE, exist_ok=True)
     ev = dict(property_id=pid, tier=tier, seed=int(seed), level=level, coverage=coverage,
               assumptions=list(assumptions), wall_s=round(wall, 2), violations=int(violations))
-    tmp = ROOT + "/evidence/.%s.tmp" % pid
+    tmp = EVIDENCE + "/.%s.tmp" % pid
     with open(tmp, "w") as f: json.dump(ev, f, indent=1, default=str)
-    os.replace(tmp, ROOT + "/evidence/%s.json" % pid)
+    os.replace(tmp, EVIDENCE + "/%s.json" % pid)
 
 def save_replay(pid, name, obj):
-    d = os.path.join(ROOT, "replay", pid)
+    d = os.path.join(REPLAY, pid)
     os.makedirs(d, exist_ok=True)
     p = os.path.join(d, name + ".json")
     with open(p, "w") as f: json.dump(obj, f, indent=1)
